@@ -21,6 +21,7 @@ pub fn check(tier: Tier) -> Check {
     }
     parts.push(Part::new("C07/fields", json!({}), 0, tier.pick(20, 60)));
     Check {
+        also_rel: false,
         property: "C07",
         level: "model_checking",
         rule: "all event sequences over <=2 subscribe calls, SUBACKs, stream() calls, inbound PUBLISH (QoS 0/1/2 x subscription identifier absent / first / second / unknown / both), stream drops, an unsubscribe, with lagging (held) and spuriously polled streams as deviations; plus a sweep over message field combinations; non-trivial = at least one message was dispatched to a stream".into(),
